@@ -93,11 +93,11 @@ impl From<IoError> for JsonParserError {
 
 impl JsonParserError {
 //@@ fn lex.can_recover = src/json_parser.rs :: impl JsonParserError :: fn can_recover
-//@@ safety C06 C16
+//@@ safety C06 C16 C20
 //@@ ret r
 //@@ rewrite matches_not
 //@@ header
-        ensures r == !(self is IoError), // @obl LEX.can_recover : C06 C16 C05
+        ensures r == !(self is IoError), // @obl LEX.can_recover : C06 C16 C05 C20
 //@@ endfn
 }
 
@@ -225,7 +225,7 @@ pub trait JsonParserUtils {
 impl<R: Read> JsonParserUtils for Reader<R> {
     open spec fn rv2(&self) -> RView { rview(self) }
 //@@ fn lex.read_reserved_word = src/json_parser.rs :: impl<R: Read> JsonParserUtils for Reader<R> :: fn read_reserved_word
-//@@ safety C01 C05 C06 C16
+//@@ safety C01 C05 C06 C16 C20
 //@@ rewrite try_io
 //@@ loop 1 iter it
             invariant
@@ -242,19 +242,19 @@ impl<R: Read> JsonParserUtils for Reader<R> {
                     }
 //@@ endfn
 //@@ fn lex.read_true = src/json_parser.rs :: impl<R: Read> JsonParserUtils for Reader<R> :: fn read_true
-//@@ safety C01 C05 C16
+//@@ safety C01 C05 C16 C20
 //@@ rewrite byte_literals
 //@@ endfn
 //@@ fn lex.read_false = src/json_parser.rs :: impl<R: Read> JsonParserUtils for Reader<R> :: fn read_false
-//@@ safety C01 C05 C16
+//@@ safety C01 C05 C16 C20
 //@@ rewrite byte_literals
 //@@ endfn
 //@@ fn lex.read_null = src/json_parser.rs :: impl<R: Read> JsonParserUtils for Reader<R> :: fn read_null
-//@@ safety C01 C05 C16
+//@@ safety C01 C05 C16 C20
 //@@ rewrite byte_literals
 //@@ endfn
 //@@ fn lex.read_array = src/json_parser.rs :: impl<R: Read> JsonParserUtils for Reader<R> :: fn read_array
-//@@ safety C01 C05 C06 C16
+//@@ safety C01 C05 C06 C16 C20
 //@@ rewrite try_io
 //@@ attr
 #[verifier::spinoff_prover]
@@ -326,7 +326,7 @@ impl<R: Read> JsonParserUtils for Reader<R> {
             }
 //@@ endfn
 //@@ fn lex.read_object = src/json_parser.rs :: impl<R: Read> JsonParserUtils for Reader<R> :: fn read_object
-//@@ safety C01 C05 C06 C16
+//@@ safety C01 C05 C06 C16 C20
 //@@ rewrite try_io
 //@@ attr
 #[verifier::spinoff_prover]
@@ -422,7 +422,7 @@ impl<R: Read> JsonParserUtils for Reader<R> {
             }
 //@@ endfn
 //@@ fn lex.read_number = src/json_parser.rs :: impl<R: Read> JsonParserUtils for Reader<R> :: fn read_number
-//@@ safety C01 C05 C06 C16 C19
+//@@ safety C01 C05 C06 C16 C19 C20
 //@@ rewrite try_io
 //@@ attr
 #[verifier::spinoff_prover]
@@ -511,7 +511,7 @@ impl<R: Read> JsonParserUtils for Reader<R> {
         }
 //@@ endfn
 //@@ fn lex.read_string = src/json_parser.rs :: impl<R: Read> JsonParserUtils for Reader<R> :: fn read_string
-//@@ safety C01 C05 C06 C16
+//@@ safety C01 C05 C06 C16 C20
 //@@ rewrite try_io
 //@@ body-start
         let ghost pp = self.pending();
@@ -630,7 +630,7 @@ impl<R: Read> JsonParserUtils for Reader<R> {
 impl<R: Read> JsonParser for Reader<R> {
     open spec fn rv(&self) -> RView { rview(self) }
 //@@ fn lex.next_json_value = src/json_parser.rs :: impl<R: Read> JsonParser for Reader<R> :: fn next_json_value
-//@@ safety C01 C05 C06 C16
+//@@ safety C01 C05 C06 C16 C20
 //@@ rewrite try_io
 //@@ header
         decreases old(self).rv().pending.len(), 2int,
